@@ -304,6 +304,9 @@ func (x *Exec) branch(c *Term) bool {
 		return true
 	}
 	// both feasible: take true, queue false
+	if debugForkSites && len(x.cstack) > 0 {
+		fmt.Fprintf(os.Stderr, "fork-site %s\n", x.cstack[len(x.cstack)-1])
+	}
 	sib := append(append([]Decision{}, x.trace...), Decision{DecBranch, 0})
 	x.pending = append(x.pending, sib)
 	x.trace = append(x.trace, Decision{DecBranch, 1})
